@@ -674,7 +674,7 @@ func main() {
 	lap("debwaiters")
 	// 7. Session.Close against the control connection: conducted reconnects of the heartbeat goroutine
 	{
-		nK := 24 * mult
+		nK := 36 * mult
 		type kres struct{ op, impl, obs string }
 		kr := make([]kres, nK)
 		kseeds := make([]uint64, nK)
@@ -706,7 +706,9 @@ func main() {
 				os.Exit(3)
 			}
 			cls := "ctl/close-with-heartbeat-in-select"
-			if strings.Contains(kr[i].op, "hbfail") {
+			if strings.Contains(kr[i].op, "dropo") {
+				cls = fmt.Sprintf("ctl/close-racing-reader-reconnect/after-%d-round-trips", strings.Count(kr[i].op, " relo"))
+			} else if strings.Contains(kr[i].op, "hbfail") {
 				w := strings.SplitN(kr[i].op, " close", 2)
 				cls = fmt.Sprintf("ctl/close-inside-heartbeat-reconnect/after-%d-round-trips", strings.Count(w[0], " rel"))
 			}
